@@ -691,6 +691,10 @@ func ruleTwoOfFiveTables(c *Ctx) {
 		c.Check(R, key+".start", e.Pos, s == m.start, m.start, s)
 		c.Check(R, key+".end", e.Pos, en == m.end, m.end, en)
 		w := e.Field("widths")
+		if w == nil {
+			c.Check(R, key+".widths", e.Pos, false, "a widths table with narrow=1, wide=2..3", "no such field")
+			continue
+		}
 		wt, wf := w.MapGetBool(true), w.MapGetBool(false)
 		okw := wt != nil && wf != nil && wf.I == 1 && (wt.I == 2 || wt.I == 3)
 		c.Check(R, key+".widths", e.Pos, okw, "narrow=1, wide=2..3 (wide:narrow ratio within the standard's 2:1..3:1)", w.String())
